@@ -58,7 +58,7 @@ def spec_check(kind, rows, lf, ops, obs, impl):
 
 
 W_CFG = dict(p_add=3, p_add_many=1, p_remove=2, g_add=7, g_add_many=3, g_remove=6, g_remove_many=2, g_remove_filtered=2,
-             rbac=4, clear=1, load=2.5, save=1, build=2.5, flags=3, query=6, probe=3)
+             rbac=4, clear=1, load=2.5, save=1, build=2.5, flags=3, query=6, probe=3, rm_swap=2)
 
 
 def spec_check_cfg(kind, rows, lf, ops, obs, impl):
@@ -134,6 +134,13 @@ def targeted_cfg_cases(kind):
     p0 = [(0, [A("admin")] + d + [A("data1"), A("read")]), (1, l1)]
     probe = mgmt.probe_ops(kind, uni)
     gops = [(1, 1, l2), (3, 1, l1), (2, 1, [l2]), (4, 1, [l1]), (5, 1, 1, [A("admin")]), (10, A("alice"))]
+    # the role manager itself replaced (set_role_manager + build_role_links) after the enforcer has answered requests
+    for gop in gops:
+        for again in (False, True):
+            ops = list(probe) + [(39,)] + list(probe) + [gop] + list(probe)
+            if again:
+                ops += [(39,)] + list(probe)
+            yield (p0, True, ops)
     for first_probe, mid, b1, gop, b2, back_on in itertools.product((True, False), ((31,), (30,), None), (True, False), gops,
                                                                     (True, False), (True, False)):
         ops = list(probe) if first_probe else []
